@@ -311,7 +311,7 @@ theorem seg_inv (f : Rat → Nat → Option Rat) (hf : Integral f) (Q : Measure 
         -- the case "a new measure up to the bar end"
         have caseNew : firstInWindow (n : Rat) ((min tsEnd w : Nat) : Rat) todo = none →
             (∀ a, todo.head? = some a → min tsEnd w ≤ a.start) →
-            Inv first orig tsEnd s' ∧ s'.pos = (tsEnd : Rat) := by
+            Inv Q first orig tsEnd s' ∧ s'.pos = (tsEnd : Rat) := by
           intro hnone hhead
           rw [hnone] at hwin
           rw [seg_new _ _ _ _ _ _ hlt hfv hwin, hme, hpos, floor_nat, floor_nat, hms] at h
@@ -389,7 +389,7 @@ theorem seg_inv (f : Rat → Nat → Option Rat) (hf : Integral f) (Q : Measure 
               · intro x hx
                 rcases List.mem_append.mp hx with hx | hx
                 · exact hq x hx
-                · simp only [List.mem_cons, List.mem_singleton, List.not_mem_nil, or_false] at hx
+                · simp only [List.mem_cons, List.not_mem_nil, or_false] at hx
                   rcases hx with hx | hx
                   · subst hx
                     right
